@@ -1,7 +1,7 @@
 (* C05 — the model interface mirrors the callable's signature.  Statements only; proofs in theories/Interface.v
    over gen/GenInterface.v (the always-keep decision translated from the current source). *)
 From Coq Require Import ZArith String List Bool.
-From J2O Require Import PyLib Onnx Interface IoNames IoAlias IoResolve.
+From J2O Require Import PyLib Onnx Interface IoNames IoAlias IoResolve IoNormalize.
 From J2OGen Require Import GenInterface.
 Import ListNotations.
 
@@ -157,3 +157,29 @@ Theorem C05_resolve_fallback : forall ins n,
   resolve ins n = if Nat.leb n (List.length ins) then Some (map fst (firstn n ins)) else None.
 Proof. exact resolve_fallback. Qed.
 Print Assumptions C05_resolve_fallback.
+
+(* ---- validation of the user's name lists (user_interface._normalize_io_names; model theories/IoNormalize.v) *)
+
+(* an accepted list is returned UNCHANGED (nothing stripped or rewritten: the names the user wrote are the names
+   applied), its entries are strings, pairwise distinct, none blank *)
+Theorem C05_normalize_accepts_unchanged : forall names l,
+  normalize names = inl l ->
+  names = map Some l /\ NoDup l /\ (forall s, In s l -> blank s = false).
+Proof. exact normalize_ok. Qed.
+Print Assumptions C05_normalize_accepts_unchanged.
+
+(* every list of pairwise distinct non-blank strings is accepted *)
+Theorem C05_normalize_complete : forall l,
+  NoDup l -> (forall s, In s l -> blank s = false) -> normalize (map Some l) = inl l.
+Proof. exact normalize_complete. Qed.
+Print Assumptions C05_normalize_complete.
+
+(* a repeated name or a non-string entry is refused wherever it stands *)
+Theorem C05_normalize_refuses_duplicate : forall pre s mid post l,
+  normalize (pre ++ Some s :: mid ++ Some s :: post) <> inl l.
+Proof. exact normalize_refuses_dup. Qed.
+Print Assumptions C05_normalize_refuses_duplicate.
+
+Theorem C05_normalize_refuses_non_string : forall pre post l, normalize (pre ++ None :: post) <> inl l.
+Proof. exact normalize_refuses_nonstr. Qed.
+Print Assumptions C05_normalize_refuses_non_string.
